@@ -365,7 +365,7 @@ Lemma wf_free_hc_updates send_ok l : forall c n, chan_wf c -> chan_wf (fst (free
 Proof.
   induction l as [|u t IH]; intros c n H; cbn [free_hc_updates]; [exact H|].
   destruct u as [amt tag|id|id].
-  - destruct (send_ok amt); [|apply IH; exact H].
+  - destruct (send_ok tag); [|apply IH; exact H].
     destruct (send_htlc c amt tag) as [[c' b]|e] eqn:E; [|apply IH; exact H].
     destruct b; apply IH; [exact (wf_send_htlc _ _ _ _ _ H E) | exact H].
   - pose proof (wf_get_update_fulfill_htlc c id H) as H1.
@@ -695,7 +695,7 @@ Lemma self_free_hc_updates send_ok l : forall c n, c_self_msat (fst (free_hc_upd
 Proof.
   induction l as [|u t IH]; intros c n; cbn [free_hc_updates]; [reflexivity|].
   destruct u as [amt tag|id|id].
-  - destruct (send_ok amt); [|apply IH].
+  - destruct (send_ok tag); [|apply IH].
     destruct (send_htlc c amt tag) as [[c' b]|e] eqn:E; [|apply IH].
     destruct b; rewrite IH; [exact (self_send_htlc _ _ _ _ _ E) | reflexivity].
   - pose proof (self_get_update_fulfill_htlc c id) as H1.
@@ -883,7 +883,7 @@ Definition ex_chan (funder : bool) (self_msat : Z) : chan :=
   mkChan funder 100000 CT_Anchors 354 354 self_msat 253 None None [] [] [] 0 0
     (INITIAL_COMMITMENT_NUMBER - 1) (INITIAL_COMMITMENT_NUMBER - 1) false false false.
 Definition ex_sys : sys := mkSys (ex_chan true 70000000) (ex_chan false 30000000) [] [] true.
-Definition ex_oracle : oracle := mkOracle [300000] true 253 253.
+Definition ex_oracle : oracle := mkOracle [22] true 253 253.
 (** node 0 sends 5000 sat, full commitment dance, node 1 claims, dance; meanwhile node 1 sends a dust
     HTLC that ends in node 0's holding-cell-free path. *)
 Definition ex_labels : list (oracle * label) :=
